@@ -1,6 +1,126 @@
-import Adb.Spec.Verdict
-/- C01 — placeholder: theorems follow (index_complete, engine_eq_scan). -/
+import Adb.Lemmas.Index
+/-
+  C01 — Engine verdict equals rule-by-rule evaluation of the loaded list.
+
+  `index_complete`: for *every* rule list, tag set and request, looking rules up through the token
+  index (bucket chosen per rule by the token histogram of the whole list, sorted de-duplicated
+  buckets, probing by the request's source-host hashes, URL tokens and the fallback token 0) returns
+  exactly the rules that match when tested one by one — provided each matching rule is
+  `tokenSound` for the request (one of its token groups is probed entirely) and rule ids identify
+  rules within the list (the properties' no-hash-collision assumption).  Both hypotheses are evaluated
+  by the driver on every generated case (the `D` flag).
+-/
 namespace Adb.Net
-theorem tagOk_nil_of_none (r : Rule) (h : r.tag = none) : tagOk r [] = true := by
-  simp [tagOk, h]
+open Adb Adb.Net.Spec
+
+/-- rule ids (seahash of the rule text) identify rules within the list -/
+def IdsIdentify (rules : List Rule) : Prop := ∀ f ∈ rules, ∀ g ∈ rules, f.id = g.id → f = g
+
+/-- **no rule that does not match is applied, and every returned rule is a rule of the list** -/
+theorem index_sound (rules : List Rule) (q : Request) (tags : List Str) (f : Rule)
+    (h : f ∈ (Index.build rules false).checkAll q tags) : f ∈ hits rules q tags := by
+  rw [mem_checkAll] at h
+  obtain ⟨_, t, _, hget, hm, ht⟩ := h
+  rw [build_eq_insertAll] at hget
+  rcases insertAll_sound _ _ _ _ hget with h0 | ⟨p, hp, rfl⟩
+  · simp [Index.get] at h0
+  · unfold buildPairs at hp
+    simp only [List.mem_flatMap, List.mem_map] at hp
+    obtain ⟨r, hr, g, _, rfl⟩ := hp
+    unfold hits
+    simp only [List.mem_filter, Bool.and_eq_true]
+    exact ⟨hr, hm, ht⟩
+
+/-- a matching rule has a token group that the request probes entirely (group-wise form of
+    `Spec.tokenSound` without the removeparam escape) -/
+def GroupProbed (r : Rule) (q : Request) : Prop :=
+  r.matches q = true → ∃ g ∈ r.getTokens, ∀ t ∈ g, t ∈ q.probe
+
+/-- **no rule that matches is lost** because of how rules are bucketed by token, de-duplicated or
+    looked up: any list, any histogram, any bucket choice. -/
+theorem index_complete (rules : List Rule) (q : Request) (tags : List Str) (f : Rule)
+    (hids : IdsIdentify rules) (h0 : 0 ∈ q.probe) (hgp : GroupProbed f q)
+    (h : f ∈ hits rules q tags) : f ∈ (Index.build rules false).checkAll q tags := by
+  unfold hits at h
+  simp only [List.mem_filter, Bool.and_eq_true] at h
+  obtain ⟨hf, hm, ht⟩ := h
+  obtain ⟨g, hg, hprobe⟩ := hgp hm
+  rw [mem_checkAll, build_eq_insertAll]
+  -- the pair (best token of g, f) is inserted
+  let toks := rules.map (fun r => (r, r.getTokens))
+  let th := tokenHistogram (toks.map (·.2))
+  let k := bestToken th.2.get? (th.1 + 1) g
+  have hpair : (k, f) ∈ buildPairs rules := by
+    unfold buildPairs
+    simp only [List.mem_flatMap, List.mem_map]
+    exact ⟨f, hf, g, hg, rfl⟩
+  have hk : k ∈ q.probe := by
+    rcases bestToken_mem th.2.get? (th.1 + 1) g with h1 | h1
+    · show bestToken th.2.get? (th.1 + 1) g ∈ q.probe
+      rw [h1]; exact h0
+    · exact hprobe _ h1
+  obtain ⟨y, hy, hid⟩ := insertAll_complete (buildPairs rules) [] (k, f) hpair
+  -- the stored rule with f's id is a rule of the list, hence f itself
+  have hyl : y ∈ rules := by
+    rcases insertAll_sound _ _ _ _ hy with h1 | ⟨p, hp, rfl⟩
+    · simp [Index.get] at h1
+    · unfold buildPairs at hp
+      simp only [List.mem_flatMap, List.mem_map] at hp
+      obtain ⟨r, hr, _, _, rfl⟩ := hp
+      exact hr
+  have hyf : y = f := hids y hyl f hf hid
+  subst hyf
+  refine ⟨insertAll_ne_nil _ _ (Or.inl (List.ne_nil_of_mem hpair)), k, hk, hy, hm, ht⟩
+
+/-- **lookup through the index = rule-by-rule evaluation**, as sets of rules, for every list. -/
+theorem index_eq_scan (rules : List Rule) (q : Request) (tags : List Str)
+    (hids : IdsIdentify rules) (h0 : 0 ∈ q.probe) (hgp : ∀ r ∈ rules, GroupProbed r q) (f : Rule) :
+    f ∈ (Index.build rules false).checkAll q tags ↔ f ∈ hits rules q tags := by
+  constructor
+  · exact index_sound rules q tags f
+  · intro h
+    have hf : f ∈ rules := by unfold hits at h; exact (List.mem_filter.1 h).1
+    exact index_complete rules q tags f hids h0 (hgp f hf) h
+
+/-- `check` (first match) finds something iff some rule matches -/
+theorem index_check_isSome (rules : List Rule) (q : Request) (tags : List Str)
+    (hids : IdsIdentify rules) (h0 : 0 ∈ q.probe) (hgp : ∀ r ∈ rules, GroupProbed r q) :
+    ((Index.build rules false).check q tags).isSome = !(hits rules q tags).isEmpty := by
+  unfold Index.check
+  rw [Bool.eq_iff_iff]
+  simp only [Option.isSome_iff_exists, List.head?_eq_some_iff, Bool.not_eq_true',
+    List.isEmpty_eq_false_iff_exists_mem]
+  constructor
+  · rintro ⟨a, l, hl⟩
+    exact ⟨a, (index_eq_scan rules q tags hids h0 hgp a).1 (by rw [hl]; exact List.mem_cons_self ..)⟩
+  · rintro ⟨a, ha⟩
+    have := (index_eq_scan rules q tags hids h0 hgp a).2 ha
+    cases hc : (Index.build rules false).checkAll q tags with
+    | nil => rw [hc] at this; cases this
+    | cons b l => exact ⟨b, l, rfl⟩
+
+/-- every request built by the library probes the fallback token 0 (`calculate_tokens` appends it) -/
+theorem mkRequest_probes_zero (rawType url schema hostname src : Str) (tp : Bool) (orig : Str) :
+    (0 : Hash) ∈ (mkRequest rawType url schema hostname src tp orig).probe := by
+  unfold Request.probe mkRequest
+  simp
+
+/-- the executable check the driver evaluates per case implies the theorem's hypothesis -/
+theorem tokenSound_groupProbed (r : Rule) (q : Request)
+    (h : tokenSound r q = true) (hrp : r.isRemoveparam = false ∨ paramPresent r q = true) : GroupProbed r q := by
+  intro hm
+  unfold tokenSound at h
+  have hesc : (r.isRemoveparam && !paramPresent r q) = false := by
+    rcases hrp with h1 | h1 <;> simp [h1]
+  simp only [hm, hesc, Bool.not_true, Bool.false_or, List.any_eq_true] at h
+  obtain ⟨g, hg, hp⟩ := h
+  refine ⟨g, hg, ?_⟩
+  split at hp
+  · rename_i he
+    have : g = [] := by simpa using he
+    subst this; simp
+  · intro t ht
+    simp only [List.all_eq_true, List.contains_eq_mem, decide_eq_true_eq] at hp
+    exact hp t ht
+
 end Adb.Net
